@@ -199,6 +199,9 @@ pub struct ArcTweak {
     pub omit_info_label: bool,
     /// record index whose name cell holds no string
     pub nameless_record: Option<usize>,
+    /// (record index, k): the name cell holds a DATA POINTER instead of a string — to the start of
+    /// the data (k = 0), to the record itself (1), to the end of the data region (2)
+    pub nameless_pointer: Option<(usize, u8)>,
     /// (record index, new size field)
     pub size_override: Option<(usize, u32)>,
     /// (record index, new offset field)
@@ -285,7 +288,17 @@ pub fn build_arc(files: &[(String, Vec<u8>)], l: &ArcLayout, tw: &ArcTweak) -> A
     let base = if l.padded { 0x60 } else { 0 };
     for (slot, &fi) in l.record_order.iter().enumerate() {
         let at = info_addr + 16 * slot;
-        if tw.nameless_record != Some(slot) {
+        if let Some((r, k)) = tw.nameless_pointer {
+            if r == slot {
+                let target = match k {
+                    0 => 0,
+                    1 => at,
+                    _ => data.len(),
+                };
+                c.pointers.insert(at, target);
+            }
+        }
+        if tw.nameless_record != Some(slot) && tw.nameless_pointer.map(|x| x.0) != Some(slot) {
             c.strings.insert(at, files[fi].0.clone());
         }
         let mut size = files[fi].1.len() as u32;
